@@ -115,6 +115,7 @@ def run(pid, spec, tier, seed):
                 finish(pid, spec, tier, seed, t0, None, [], 1, notes + ["harness build failed"], {})
                 return 1
         facts_note = None
+        C.pipe_acquire()
         if spec.get("facts"):
             from . import facts
             try:
@@ -137,6 +138,7 @@ def run(pid, spec, tier, seed):
             notes.append("leanchecker re-checked %s: %s" % (" ".join(spec["lean"]), "ok" if ok else "FAILED"))
             if not ok:
                 proof_broken.append("leanchecker rejects the compiled modules: " + out[-500:])
+        C.pipe_release()
 
         # 2. correspondence + monitors
         runs = []
@@ -198,6 +200,16 @@ def run(pid, spec, tier, seed):
             violations.append(("input", rp, ""))
         if not mon_hits:
             diffs = [dict(d, seed=r.get("seed", seed)) for r in runs for d in r["diffs"]]
+            # cases the harness marks as built on a state NO history can produce (spec `unreachable_attr`) are outside the
+            # quantifier of every property: the model is still compared there, but a difference is recorded, not reported
+            ua = spec.get("unreachable_attr")
+            if ua:
+                outside = [d for d in diffs if d["ops_prefix"] and ua in d["ops_prefix"][0].split()]
+                diffs = [d for d in diffs if d not in outside]
+                if outside:
+                    notes.append("model and implementation differ on %d compared case(s) marked `%s` (storage contents no history can "
+                                 "produce; outside the property's quantifier; recorded, not a violation), first: case %s op `%s`"
+                                 % (len(outside), ua, outside[0]["case"], outside[0]["op"][:200]))
             if diffs:
                 d = diffs[0]
                 rp = C.write_replay(pid, "corr", dict(property=pid, kind="correspondence",
@@ -267,6 +279,7 @@ def shrink(pid, spec, hbin, wd, ops, v, seed, tier):
 
 
 def finish(pid, spec, tier, seed, t0, audit, runs, nviol, notes, extra):
+    C.pipe_release()
     stats, samples, branches = {}, [], {}
     lines = 0
     for r in runs:
